@@ -251,11 +251,44 @@ def _eligible(fn, kind):
             out.append(n)
         elif kind == 'guard-to-else' and isinstance(n, ast.If) and not n.orelse and n.body and isinstance(n.body[-1], (ast.Raise, ast.Return)):
             out.append(n)
+        elif kind == 'reword-message' and isinstance(n, ast.Raise) and n.exc is not None:
+            out.append(n)
+        elif kind == 'pos-to-kw' and isinstance(n, ast.Call) and n.args and not n.keywords and _callee_params(n) is not None:
+            out.append(n)
         elif kind == 'intro-temp' and isinstance(n, (ast.Assign, ast.Expr, ast.Return)) and n.value is not None:
             c = _first_evaluated_call(n.value)
             if c is not None:
                 out.append(n)
     return out
+
+
+_PARAMS = None
+
+
+def _callee_params(call):
+    """parameter names of the callee when the method / function name is defined exactly once in the hand-written modules"""
+    global _PARAMS
+    if _PARAMS is None:
+        _PARAMS = {}
+        for rel in TARGETS:
+            tree = ast.parse(open(os.path.join(REPO, rel), encoding='utf-8').read())
+            for node in ast.walk(tree):
+                if isinstance(node, ast.ClassDef):
+                    for m in node.body:
+                        if isinstance(m, ast.FunctionDef) and not m.decorator_list and not m.args.vararg and not m.args.kwarg:
+                            _PARAMS.setdefault(m.name, []).append([a.arg for a in m.args.args][1:])
+            for m in tree.body:
+                if isinstance(m, ast.FunctionDef) and not m.args.vararg and not m.args.kwarg:
+                    _PARAMS.setdefault(m.name, []).append([a.arg for a in m.args.args])
+    name = call.func.attr if isinstance(call.func, ast.Attribute) else call.func.id if isinstance(call.func, ast.Name) else None
+    if name is None or name.startswith('__') or name in ('append', 'remove', 'get', 'pop', 'insert', 'index', 'extend', 'copy', 'find', 'write', 'strip', 'split'):
+        return None
+    if isinstance(call.func, ast.Attribute) and isinstance(call.func.value, ast.Call) and isinstance(call.func.value.func, ast.Name) and call.func.value.func.id == 'super':
+        return None
+    ps = _PARAMS.get(name)
+    if not ps or len(ps) != 1 or len(ps[0]) < len(call.args) or any(isinstance(a, ast.Starred) for a in call.args):
+        return None
+    return ps[0]
 
 
 def _first_evaluated_call(e):
@@ -305,6 +338,22 @@ def rewrite(src, rel, qual, k, only, kind):
         rest = lst[i + 1:]
         del lst[i + 1:]
         n.orelse = rest
+    elif kind == 'reword-message':
+        hit = False
+        for c in ast.walk(n.exc):
+            if isinstance(c, ast.Constant) and isinstance(c.value, str):
+                c.value = c.value + ' (see the documentation)'
+                hit = True
+        if not hit:
+            if isinstance(n.exc, ast.Call):
+                n.exc.args.append(ast.Constant(value='see the documentation'))
+            else:
+                n.exc = ast.Call(func=n.exc, args=[ast.Constant(value='see the documentation')], keywords=[])
+    elif kind == 'pos-to-kw':
+        ps = _callee_params(n)
+        last = len(n.args) - 1
+        n.keywords = [ast.keyword(arg=ps[last], value=n.args[last])]
+        n.args = n.args[:last]
     elif kind == 'intro-temp':
         lst, i = holder_of(n)
         if lst is None:
@@ -328,7 +377,7 @@ def rewrite(src, rel, qual, k, only, kind):
     return new_src, before, line, kind, [], []
 
 
-KINDS = ('extract', 'negate-if', 'split-and', 'guard-to-else', 'intro-temp')
+KINDS = ('extract', 'negate-if', 'split-and', 'guard-to-else', 'intro-temp', 'reword-message', 'pos-to-kw')
 
 
 def enumerate_variants(files, per_function, seed, kinds=('extract',)):
